@@ -92,4 +92,29 @@ theorem tracksConnectedB_sound (d : Doc) (h : tracksConnectedB d = true) :
     have hcy := (mem_component_iff _ _ _ hV _).1 (hh y hym)
     exact (conn_symm _ hcx).trans hcy
 
+theorem aget_some_mem (a : Attrs) (k : String) (v : Val) (h : aget? a k = some v) : (k, v) ∈ a := by
+  unfold aget? at h
+  cases hf : a.find? (fun kv => kv.1 == k) with
+  | none => rw [hf] at h; cases h
+  | some x =>
+    rw [hf] at h
+    simp only [Option.map_some, Option.some.injEq] at h
+    have hm := List.mem_of_find?_eq_some hf
+    have hk : x.1 = k := by simpa using List.find?_some hf
+    rw [← hk, ← h]; exact hm
+
+theorem columnKind_int (cells : List (Option Val)) (hne : (cells.filterMap id).isEmpty = false)
+    (hall : (cells.filterMap id).all isI = true) : columnKind cells = .int64 := by
+  unfold columnKind
+  simp only [hne, hall, Bool.false_eq_true, if_false, if_true]
+
+theorem columnKind_float (cells : List (Option Val)) (hne : (cells.filterMap id).isEmpty = false)
+    (hnotI : (cells.filterMap id).all isI = false) (hnum : (cells.filterMap id).all isNum = true) :
+    columnKind cells = .float64 := by
+  unfold columnKind
+  simp only [hne, hnotI, hnum, Bool.false_eq_true, if_false, if_true]
+
+theorem touches_iff (e : Edge) (n : Nat) : touches e n = true ↔ e.s = n ∨ e.t = n := by
+  simp [touches]
+
 end Geff.TrackMate
